@@ -249,7 +249,7 @@ func check(it *proto.RTItem, r *proto.RTResult) []proto.Issue {
 	return out
 }
 
-var F = &proto.RTFamily{ID: "C19", Gen: gen}
+var F = &proto.RTFamily{ID: "C19", Gen: gen, SecondEvery: 3}
 
 func init() {
 	F.Check = check
